@@ -11,13 +11,20 @@ def families(tier):
     return D.env_family(SEED + 180, 110, maxlen=3, budget=3000)
 
 
+NAMES = {}      # def id -> item id -> texts that name the item (its names without dashes are not enough: the spelled names, its variable)
+
+
 def enrich(cases, out):
-    """every case is run twice: as is, and with a variable the parser does not declare set as well"""
+    """every case is run twice: as is, and with a variable the parser does not declare set as well; a run that fails
+    because an env-backed item is missing must name the item or its variable"""
     n = 0
     with open(out, "w") as w:
         for c in read_ndjson(cases):
             env = c["env"] if isinstance(c["env"], dict) else {}
             c["env"] = env
+            why = c["expect"].get("why") or {}
+            if c["expect"]["class"] == "stderr" and why.get("k") == "missing" and why.get("id") in NAMES.get(c["def"], {}):
+                c["expect"]["carries_any"] = NAMES[c["def"]][why["id"]]
             w.write(json.dumps(c) + "\n")
             c2 = dict(c, env=dict(env, BPAF_VERIF_UNDECLARED="1"), undeclared=True)
             w.write(json.dumps(c2) + "\n")
@@ -47,7 +54,18 @@ def sig(m):
     return s
 
 
+def register_names(fam):
+    for d in fam:
+        NAMES[d["id"]] = {}
+        for lvl in D.all_levels(d):
+            for f in lvl["named"]:
+                for it in (D.field_leaves(f) if f["kind"] in ("switch", "reqflag", "arg", "alt", "adj") else []):
+                    if it.get("env"):
+                        NAMES[d["id"]][it["id"]] = it["shorts"] + it["longs"] + [it["env"]]
+
+
 def run(v):
+    register_names(families(v.tier))
     big = D.env_family(SEED + 1180, 33, budget=10**9)
     for d in big:
         d["alpha"]["envvals"] = ["UNSET", "1", "x", "3", "%FF"]
